@@ -6,7 +6,7 @@ PROP = dict(
     bounded_budget=dict(quick=60, thorough=420),
     assumptions=[],
     trusted_base=['z3 5.1 / cvc5 1.0.3', 'pyvc symbolic executor and its encoding of Python (DESIGN.md section 2.3)', 'CPython 3.12, PLY 3.11 (A-PLY)'],
-    manifest=dict(text='Deductive (induction over the syntax tree, one handler per case; new/relate abstracted to ghost degree counters): 43 functions of ActionPrebuilder — statement, value, variable helpers and handlers — each create instances with exactly one subtype, one block, one type, copied positions; R661, R604 and R816 chains pairwise with nothing at the ends; literal/comparison/boolean/cardinality typing. Bounded: 24 statement forms alone, nested and in pairs, plus seeded random programs in six action homes; after prebuild_action: schema multiplicity/uniqueness at the created instances, one subtype per ACT_SMT and V_VAL, R661/R816/R604 neighbour chains, positions, block membership, OAL typing of every value.',
+    manifest=dict(text='Deductive (induction over the syntax tree, one handler per case; new/relate abstracted to ghost degree counters): 46 functions of ActionPrebuilder — statement, value, variable helpers and handlers — each create instances with exactly one subtype, one block, one type, copied positions; R661, R604 and R816 chains pairwise with nothing at the ends; literal/comparison/boolean/cardinality typing. Bounded: 24 statement forms alone, nested and in pairs, plus seeded random programs in six action homes; after prebuild_action: schema multiplicity/uniqueness at the created instances, one subtype per ACT_SMT and V_VAL, R661/R816/R604 neighbour chains, positions, block membership, OAL typing of every value.',
                   note='PLY (A-PLY); name-resolved programs over the repository test model.',
                   technique='bounded stand-in (run-time contracts on the real functions driven by small-scope enumeration; labelled bounded, never counted as proved) decides the property sentence; contract-based deductive verification: sidecar contracts on the real functions, verification conditions generated from the current source of /repo on every run by pyvc (Python AST -> z3/cvc5), every obligation discharged function by function for the listed kernel functions, reported separately as tier P'),
 )
